@@ -7,6 +7,7 @@ mod ratelimit;
 mod shim;
 mod store;
 mod tiered;
+mod validate;
 
 fn main() {
     let args: Vec<String> = std::env::args().collect();
@@ -17,6 +18,7 @@ fn main() {
         Some("persist") => persist::run(),
         Some("config") => configeng::run(),
         Some("ratelimit") => ratelimit::run(),
+        Some("validate") => validate::run(),
         _ => {
             eprintln!("usage: kvh <engine>");
             std::process::exit(2);
